@@ -104,12 +104,15 @@ pub struct Slave {
     pub master: u8,
     pub outputs: Vec<u8>,
     pub got_prm: Vec<u8>,
+    /// number of diagnosis polls after an accepted Chk_Cfg during which the slave still reports Station_Not_Ready
+    pub ready_delay: u8,
+    pub not_ready_left: u8,
 }
 impl Slave {
     pub fn diag_pdu(&self) -> Vec<u8> {
         let mut s1 = 0u8;
         let mut s2 = 0x04u8;
-        if self.st != SState::DataExch {
+        if self.st != SState::DataExch || self.not_ready_left > 0 {
             s1 |= 0x02;
         }
         if self.cfg_fault {
@@ -149,7 +152,9 @@ impl Slave {
         let resp = match r.dsap {
             Some(60) => {
                 self.diag_pending = false;
-                enc_data(r.sa, self.addr, Some(62), Some(60), 0x08, &self.diag_pdu())
+                let b = enc_data(r.sa, self.addr, Some(62), Some(60), 0x08, &self.diag_pdu());
+                self.not_ready_left = self.not_ready_left.saturating_sub(1);
+                b
             }
             Some(61) => {
                 if r.pdu.len() >= 7 && u16::from_be_bytes([r.pdu[4], r.pdu[5]]) == self.ident {
@@ -171,6 +176,9 @@ impl Slave {
                     enc_data(r.sa, self.addr, None, None, 0x03, &[])
                 } else {
                     if r.pdu == self.cfg {
+                        if self.st != SState::DataExch {
+                            self.not_ready_left = self.ready_delay;
+                        }
                         self.st = SState::DataExch;
                         self.cfg_fault = false;
                     } else {
@@ -181,7 +189,7 @@ impl Slave {
                 }
             }
             None => {
-                if self.st == SState::DataExch {
+                if self.st == SState::DataExch && self.not_ready_left == 0 {
                     if r.pdu.len() == self.n_out {
                         self.outputs = r.pdu.clone();
                     }
@@ -208,6 +216,7 @@ impl Slave {
         self.prm_fault = false;
         self.cfg_fault = false;
         self.diag_pending = false;
+        self.not_ready_left = 0;
     }
 }
 
@@ -258,8 +267,9 @@ fn abstract_reply(code: &str, maddr: u8, r: &Req, n_in: usize, ident: u16) -> Ve
             let n = if parts.get(2) == Some(&"1") { n_in } else { n_in + 1 };
             enc_data(maddr, r.da, None, None, st, &vec![0x5A; n])
         }
-        // a response with SAPs that is neither a diagnosis nor a Data_Exchange reply
-        _ => enc_data(maddr, r.da, Some(10), Some(20), 0x08, &vec![0xA5; n_in]),
+        // a response that is neither a usable diagnosis nor a Data_Exchange reply: foreign SAPs, or the diagnosis
+        // SAPs with fewer than 6 bytes (alternating by request bits so that both occur)
+        _ => if r.fcb { enc_data(maddr, r.da, Some(10), Some(20), 0x08, &vec![0xA5; n_in]) } else { enc_data(maddr, r.da, Some(62), Some(60), 0x08, &[0x02, 0x05, 0x00]) },
     }
 }
 
@@ -509,8 +519,17 @@ fn one_run(log: &mut EvLog, mlog: &mut Option<EvLog>, seed: u64, thorough: bool,
             master: 255,
             outputs: vec![],
             got_prm: vec![],
+            ready_delay: 0,
+            not_ready_left: 0,
         })
         .collect();
+    if sched.is_none() {
+        for sl in slaves.iter_mut() {
+            if rng.gen_bool(0.3) {
+                sl.ready_delay = rng.gen_range(1..=6);
+            }
+        }
+    }
     let bus = Bus::new(rate);
     let mut phy = VPhy::new(bus.clone(), 0);
     let mut f = fdl::FdlActiveStation::new(params);
@@ -777,7 +796,7 @@ fn one_run(log: &mut EvLog, mlog: &mut Option<EvLog>, seed: u64, thorough: bool,
                 // diagnosis replies with arbitrary, independently varied flag combinations
                 4 + 12
             } else if faulty {
-                rng.gen_range(0..(4 + SUBST.len() + if thorough { SUBST2.len() } else { 2 }))
+                rng.gen_range(0..(4 + SUBST.len() + if thorough { SUBST2.len() } else { 3 }))
             } else {
                 999
             };
